@@ -47,10 +47,38 @@ impl<'a> Dfa<'a> {
         for cluster in grapheme_clusters {
             dfa.insert(cluster);
         }
+        #[cfg(grex_verif)]
+        dfa.verif_snapshot(false);
         if is_minimized {
             dfa.minimize();
+            #[cfg(grex_verif)]
+            dfa.verif_snapshot(true);
         }
         dfa
+    }
+
+    #[cfg(grex_verif)]
+    fn verif_snapshot(&self, minimized: bool) {
+        use petgraph::visit::{EdgeRef, IntoEdgeReferences};
+        let mut finals = self.final_state_indices.iter().copied().collect_vec();
+        finals.sort_unstable();
+        crate::verif::record(crate::verif::Event::Dfa {
+            minimized,
+            start: self.initial_state.index(),
+            finals,
+            nodes: self.graph.node_indices().map(|n| n.index()).collect(),
+            edges: self
+                .graph
+                .edge_references()
+                .map(|e| {
+                    (
+                        e.source().index(),
+                        e.target().index(),
+                        crate::verif::g(e.weight()),
+                    )
+                })
+                .collect(),
+        });
     }
 
     pub(crate) fn state_count(&self) -> usize {
